@@ -22,4 +22,5 @@ if cargo test -q -p "$CRATE" --test "$TEST" --offline $FEAT >/tmp/confirm_demo_m
 rm -f "$WT/$DEST"
 SUM=$(cargo nextest run --workspace --no-fail-fast --offline 2>&1 | grep -E "Summary" | tail -1)
 git checkout -q -- . ; git clean -qfd
-case "$SUM" in *"464 passed, 1 failed"*) echo "CONFIRMED: $SUM";; *) echo "REJECTED: suite: $SUM"; exit 1;; esac
+# nextest adds "(n leaky)" after the pass count when test processes leave threads behind on a loaded machine
+case "$SUM" in *"464 passed, 1 failed"*|*"464 passed ("*" leaky), 1 failed"*) echo "CONFIRMED: $SUM";; *) echo "REJECTED: suite: $SUM"; exit 1;; esac
